@@ -1,5 +1,12 @@
 // probe.cc -- reads library internals without touching the library source: the standard headers
 // are included first, then the sigc++ headers with access specifiers opened up.
+#ifdef VERIF_NO_PROBE
+// fallback when the library internals are no longer reachable this way: probes report "unknown"
+#include <sigc++/sigc++.h>
+size_t probe_regs(const sigc::trackable&) { return (size_t)-1; }
+long probe_list(const sigc::trackable&) { return -2; }
+int probe_exec(const sigc::signal_base&) { return -2; }
+#else
 #include <list>
 #include <memory>
 #include <tuple>
@@ -28,3 +35,4 @@ int probe_exec(const sigc::signal_base& s)
 {
   return s.impl_ ? (int)s.impl_->exec_count_ : -1;
 }
+#endif
